@@ -22,6 +22,11 @@ Definition bvec_eqb (G : Symmetry) (R : Ring) (a b : bvec G R) : bool :=
   Nat.eqb (length a) (length b) &&
   forallb (fun p => match lookup (ceqb G) (fst p) b with Some t => tensor_eqb R (snd p) t | None => false end) a.
 '''
+# run-time tie of the TRANSLATED structural code (Gen/LinalgGen.v, tr/gen_linalg.py): own shard and imports, so
+# that the hand-model cases above still evaluate when the generated file is missing
+GEN_IMPORTS = IMPORTS + 'From SV Require Import Gen.LinalgGen.\n'
+GEN_NAMES = {'a_qr': 'qr_gen', 'f_qr': 'qr_fermionic_gen', 'a_svd': 'svd_gen', 'f_svd': 'svd_fermionic_gen',
+             'a_eigh': 'eigh_gen', 'f_eigh': 'eigh_fermionic_gen', 'a_solve': 'solve_gen', 'f_solve': 'solve_fermionic_gen'}
 SYMS = ['Z2', 'U1', 'Z2Z2', 'U1U1', 'Z4']
 TOL = 1e-8
 FAMILIES = ('solve_fermionic_odd_matrix',)
@@ -557,6 +562,13 @@ def expr_solve(sym, a, b, x):
             % (pfx(a), sym, garr(a, sym), garr(b, sym), eqb(a, sym), garr(x, sym)))
 
 
+def gen_expr(e):
+    """the same comparison with the GENERATED function in place of the hand model's (same stub oracles)"""
+    assert e.startswith('match ')
+    head, rest = e[len('match '):].split(' ', 1)
+    return 'match %s %s' % (GEN_NAMES[head], rest)
+
+
 # ------------------------------------------------------------------ the check
 class Findings:
     def __init__(self, ctx):
@@ -682,6 +694,15 @@ def run(ctx):
     elif bad_idx:
         tie_broken += ['Model.Linalg structure of %s disagrees with the implementation (symmetry %s, case %d)' % meta[i] for i in bad_idx[:10]]
         ctx.extra['disagreeing_cases'] = [exprs[i][:3000] for i in bad_idx[:2]]
+    # ---- the generated functions (translated from the current source) against the same factors, same stub oracles
+    gexprs = [gen_expr(e) for e in exprs]
+    bad_gen = common.run_cases(ctx, 'linalg_gen', GEN_IMPORTS, PREAMBLE, gexprs, shard=40)
+    if bad_gen is None:
+        tie_broken.append('cases.v (Gen/LinalgGen.v, the translated structural code of the decompositions, vs implementation) did not evaluate')
+    elif bad_gen:
+        tie_broken += ['Gen.LinalgGen.%s disagrees with the implementation (%s, symmetry %s, case %d)' % (
+            (GEN_NAMES[exprs[i][len('match '):].split(' ', 1)[0]],) + meta[i]) for i in bad_gen[:10]]
+        ctx.extra['disagreeing_gen_cases'] = [gexprs[i][:3000] for i in bad_gen[:2]]
     # ---- f_mul_diag (the u.diag(s) / v.diag(w) of the C09b / C11b theorems) vs FermionicArray.multiply_diagonal
     import tie_muldiag
     tie_broken += tie_muldiag.tie(ctx, sr)
@@ -699,7 +720,8 @@ def run(ctx):
     if (not ok or tie_broken) and not fnd.found:
         ctx.violation('proof obligation or tie of C11 no longer checks', {'broken': ctx.broken}, found_input=False)
     ctx.extra['case_classes'] = stats
-    ctx.extra['tie'] = {'model_cases': len(exprs)}
+    ctx.extra['tie'] = {'model_cases': len(exprs), 'gen_linalg_cases': len(gexprs),
+                        'gen_linalg_by_function': {g: sum(1 for e in exprs if e.startswith('match %s ' % h)) for h, g in GEN_NAMES.items()}}
     ctx.extra['known_findings_observed'] = fnd.seen
     if candidates:
         ctx.extra['candidates_not_flagged'] = candidates
